@@ -51,7 +51,7 @@ COMPS = ['a', 'b', 'ab', 'cd', 'xy', 'x', 'src', 'lib', 'a.b', '..x', 'x..',
          '...', 'ab.cd', 'long_name', 'é', 'a b', '1', '12', 'v1..', 'v1PAR',
          'PARa', 'x.']
 STEMS = ['x', 'y', 'main', 'a', 'ab', 'util.v1', 'util.v2', 'x.tab', '..',
-         'a b', 'y..', 'yPAR']
+         'a b', 'y..', 'yPAR', 'l' * 201 + '_v1', 'l' * 201 + '_v2']
 EXTS = ['.c', '.c', '.c', '.cpp', '.cc']
 
 
@@ -163,13 +163,15 @@ def e2e_cases(draw):
         s['up'] = min(s['up'], depth)
         if escape and k == 0:
             s['up'] = depth + 1
-        if s['ext'] != '.c':
+        if s['ext'] not in ('.c', '.cpp', '.cc'):
             s['ext'] = '.cpp'
         srcs.append(s)
     if draw(st.integers(0, 4)) == 0:
         # force a same-stem different-extension pair
         t = dict(srcs[0])
-        t['ext'] = '.cpp' if srcs[0]['ext'] == '.c' else '.c'
+        # (another language, or the same language under another extension)
+        t['ext'] = draw(st.sampled_from(
+            [e for e in ('.c', '.cpp', '.cc') if e != srcs[0]['ext']]))
         srcs.append(t)
     kind = draw(st.sampled_from(['executable', 'static_library',
                                  'shared_library', 'object_files',
@@ -200,7 +202,7 @@ def render_project(root, case):
             uniq.append(p)
     for i, p in enumerate(uniq):
         body = 'int f{}(void) {{ return {}; }}\n'.format(i, i)
-        if p.endswith('.cpp'):
+        if p.endswith(('.cpp', '.cc')):
             body = 'extern "C" ' + body
         files[p] = body
     mainsrc = posixpath.join(sub, 'vf_main_entry.c')
